@@ -162,6 +162,25 @@ def structure_cases():
       out.append(("field-count", T(f + ["xx:i:1", "x"]), version))
       out.append(("dup-tag", T(f + ["zz:i:1", "zz:i:2"]), version))
       out.append(("dup-tag", T(f + ["zz:i:1", "zz:Z:a"]), version))
+      out.append(("dup-tag", T(f + ["zz:i:1", "zz:i:1"]), version))
+      # every tag the line already has, and every predefined tag of its
+      # record type, repeated (same value and different value)
+      rt = f[0]
+      pre = grammar.RECORDS[version].get(rt, ([], {}))[1]
+      npos = len(grammar.RECORDS[version].get(rt, ([], {}))[0]) if rt in grammar.RECORDS[version] else len(f)
+      for t in f[1 + npos:]:
+        if grammar.split_tag(t):
+          out.append(("dup-tag-existing", T(f + [t]), version))
+      vals = {"i": "4", "Z": "ab", "H": "1A"}
+      base = f[:1 + npos]
+      for tag, dt in sorted(pre.items()):
+        if rt == "S" and version == "gfa1" and tag == "LN":
+          base2 = ["S", "A", "ACGT"]
+        else:
+          base2 = base
+        t = "{}:{}:{}".format(tag, dt, vals[dt])
+        out.append(("dup-tag-predefined", T(base2 + [t, t]), version))
+        out.append(("dup-tag-predefined", T(base2 + [t, "zz:i:1", t]), version))
   for name in enumstr.all_strings(["a", "Z", "1", "_"], 3, 1):
     out.append(("tag-name", "S\tA\t*\t{}:i:1".format(name), "gfa1"))
     out.append(("tag-name", "S\ta\t1\t*\t{}:i:1".format(name), "gfa2"))
